@@ -101,16 +101,14 @@ func Explore(run RunFunc, opt Options) Stats {
 	}
 	type item struct {
 		prefix []int
-		owned  bool // this shard owns the subtree (or no sharding)
+		level  int  // number of branch decisions from the root
+		owned  bool // this shard owns the whole subtree
 	}
-	stack := []item{{prefix: nil, owned: opt.NShards == 1}}
-	// Ownership: a subtree rooted at a prefix of length >= splitLen is owned by
-	// hash(prefix[:splitLen...]) — we assign ownership when a child prefix is
-	// first created at depth (number of deviations) == 1 for bound>=1; the root
-	// execution and all first-level children roots are run by every shard that
-	// needs them. Simpler and still balanced: every child created from an
-	// unowned node is owned by hash(child prefix) % NShards; unowned nodes are
-	// only the root.
+	// Sharding: nodes at level < splitLevel are executed by every shard (they
+	// are few) but counted once, by shard 0; a node at level == splitLevel is
+	// owned - together with its whole subtree - by hash(prefix) % NShards.
+	const splitLevel = 2
+	stack := []item{{prefix: nil, level: 0, owned: opt.NShards == 1}}
 	for len(stack) > 0 {
 		if opt.Stop != nil && opt.Stop() {
 			st.Completed = false
@@ -131,7 +129,7 @@ func Explore(run RunFunc, opt Options) Stats {
 				st.FirstDiverge = ch.Diverge
 			}
 		}
-		count := it.owned || (opt.Shard == 0) // the root is counted once, by shard 0
+		count := it.owned || (opt.Shard == 0) // shared nodes are counted once, by shard 0
 		if count {
 			st.Executions++
 			st.SumPoints += int64(len(x.Points))
@@ -164,13 +162,13 @@ func Explore(run RunFunc, opt Options) Stats {
 				copy(child, x.Choices[:i])
 				child[i] = alt
 				owned := it.owned
-				if !owned {
-					owned = ownerOf(child, opt.NShards) == opt.Shard
-					if !owned {
+				if !owned && it.level+1 >= splitLevel {
+					if ownerOf(child, opt.NShards) != opt.Shard {
 						continue
 					}
+					owned = true
 				}
-				stack = append(stack, item{prefix: child, owned: true})
+				stack = append(stack, item{prefix: child, level: it.level + 1, owned: owned})
 			}
 			// default choice (0) continues; its cost
 			if len(p.Costs) > 0 {
